@@ -528,3 +528,196 @@ class TagIsScheduledNow(Query):
 
 KERNELS = [Advance, Schedule, ScheduleDelta, UnScheduleTag, UnScheduleNext, PopTag, Reset,
            NextScheduledTime, IsScheduled, IsScheduledNow, HasTag, TagTime, TagIsScheduledNow]
+
+
+# ------------------------------------------------------------------ native replay of counter-models (real header, real code)
+#
+# A refuted obligation of a NodeScheduler kernel comes with a finite-scope counter-model: an entry state (pending events,
+# tag index, now, node index, flags, arguments).  The replay builds exactly that NodeScheduler natively (native/replay/
+# ns_replay.cpp includes the REAL node_scheduler.h of the tree being checked; only GraphValue::schedule_node is a recording
+# stub with the contract the kernels use), runs the operation, reads the final state back and evaluates the kernel's own
+# postconditions on (entry state, final state, result).  "confirmed" = the named clause is false on the real run.
+
+import os as _os
+import subprocess as _sp
+import hashlib as _hl
+
+from cxxvc.interp import Ctx as _Ctx, Interp as _Interp, MAX_DT_VALUE as _MAXV
+from cxxvc import extract as _extract
+
+
+def _parse_model_value(s):
+    """z3's printed model value -> python: int / bool / (default, {index: value}) for arrays"""
+    ns = {"Int": None, "Bool": None, "True": True, "False": False,
+          "K": lambda sort, v: (v, {}),
+          "Store": lambda a, i, v: (a[0], dict(list(a[1].items()) + [(i, v)]))}
+    return eval(s.replace("\n", " "), {"__builtins__": {}}, ns)
+
+
+def _arr_get(a, i):
+    return a[1].get(i, a[0])
+
+
+class _Replay:
+    OPS = {"Advance": "advance", "Schedule": "schedule_dt", "ScheduleDelta": "schedule_td", "UnScheduleTag": "un_schedule_tag",
+           "UnScheduleNext": "un_schedule", "PopTag": "pop_tag", "Reset": "reset", "NextScheduledTime": "next_scheduled_time",
+           "IsScheduled": "is_scheduled", "IsScheduledNow": "is_scheduled_now", "HasTag": "has_tag", "TagTime": "tag_time",
+           "TagIsScheduledNow": "tag_is_scheduled_now"}
+
+    @staticmethod
+    def harness():
+        d = _os.path.join(_extract.CACHE, "replay")
+        _os.makedirs(d, exist_ok=True)
+        src = _os.path.join(_extract.VERIF, "native", "replay", "ns_replay.cpp")
+        hdr = _os.path.join(_extract.REPO, "include/hgraph/runtime/node_scheduler.h")
+        key = _hl.sha256(open(src, "rb").read() + open(hdr, "rb").read() + _extract.tree_hash().encode()).hexdigest()[:16]
+        exe = _os.path.join(d, "ns_replay_" + key)
+        if not _os.path.exists(exe):
+            cmd = ["g++", "-std=c++23", "-O0", "-w", "-DFMT_HEADER_ONLY", "-DHGRAPH_STATIC_DEFINE", "-I" + _extract.gen_dir(),
+                   "-I" + _os.path.join(_extract.REPO, "include"), "-I" + _os.path.join(_extract.REPO, "include/third_party"),
+                   "-I" + _extract.WHEEL_INC, src, "-o", exe]
+            p = _sp.run(cmd, capture_output=True, text=True)
+            if p.returncode != 0:
+                raise RuntimeError("replay harness does not build: " + p.stderr[-800:])
+        return exe
+
+
+def _ns_native_replay(self, ob, r):
+    op = _Replay.OPS.get(type(self).__name__)
+    if op is None or not r.get("model"):
+        return None
+    m = {k: _parse_model_value(v) for k, v in r["model"].items()}
+    ms = m.get("MAX_DT", 3)
+    real = lambda v: v if v < ms else _MAXV + (v - ms)
+    if m.get("on_wall_clock") and m.get("supports_wall"):
+        return {"status": "unsupported", "detail": "wall-clock alarm: the wall clock read is not replayed"}
+    # finite-scope models constrain arrays only over the scope's universe; outside it the default is meaningless
+    sc = getattr(self, "scope", None) or {"lo": 0, "hi": 3}
+    U = [v for v in range(sc["lo"] - 2, sc["hi"] + 3) if v >= 0]
+    ev0 = m.get("events_mem0", ((False, {}), {}))
+    events = [(t, k) for t in U if t <= ms for k in U if _arr_get(_arr_get(ev0, t), k)]
+    has0, val0 = m.get("tags_has0", (False, {})), m.get("tags_val0", (0, {}))
+    tags = [(k, _arr_get(val0, k)) for k in U if k != 0 and _arr_get(has0, k)]
+    g = lambda k, d=0: m.get(k, d)
+    b = lambda k: 1 if m.get(k, False) else 0
+    lines = ["%d %d %d %d %d %d %d %d" % (real(g("now")), g("node_index"), b("started"), b("graph_null"), b("state_null"),
+                                           b("supports_wall"), real(g("G_T")), g("G_n"))]
+    lines.append(" ".join([str(len(events))] + ["%d %d" % (real(t), k) for t, k in events]))
+    lines.append(" ".join([str(len(tags))] + ["%d %d" % (k, real(t)) for k, t in tags]))
+    if op == "schedule_dt":
+        lines.append("%s %d %d %d %d" % (op, real(g("when")), b("tag_has"), g("tag_val"), b("on_wall_clock")))
+    elif op == "schedule_td":
+        lines.append("%s %d %d %d %d" % (op, g("delta"), b("tag_has"), g("tag_val"), b("on_wall_clock")))
+    elif op in ("un_schedule_tag", "has_tag", "tag_is_scheduled_now"):
+        lines.append("%s %d" % (op, g("tag")))
+    elif op in ("pop_tag", "tag_time"):
+        lines.append("%s %d %d" % (op, g("tag"), real(g("default_time")) if g("default_time") >= 0 else 0))
+    else:
+        lines.append(op)
+    if any(t < 0 for _, t in tags):
+        return {"status": "unsupported", "detail": "counter-model outside the representable entry states"}
+    exe = _Replay.harness()
+    p = _sp.run([exe], input="\n".join(lines) + "\n", capture_output=True, text=True, timeout=60)
+    if p.returncode != 0:
+        return {"status": "harness-error", "detail": (p.stdout + p.stderr)[-400:]}
+    out = {l.split()[0]: l.split()[1:] for l in p.stdout.splitlines() if l.strip()}
+    exc = out["exc"][0]
+    fe = [(int(out["events"][1 + 2 * i]), int(out["events"][2 + 2 * i])) for i in range(int(out["events"][0]))]
+    ft = [(int(out["tags"][1 + 2 * i]), int(out["tags"][2 + 2 * i])) for i in range(int(out["tags"][0]))]
+    calls = [(int(out["calls"][1 + 2 * i]), int(out["calls"][2 + 2 * i])) for i in range(int(out["calls"][0]))]
+    # ---- evaluate the kernel's own postconditions on the real run
+    I_ = z3.IntSort()
+    B_ = z3.BoolSort()
+
+    def arr2(pairs):
+        a = z3.K(I_, z3.K(I_, z3.BoolVal(False)))
+        rows = {}
+        for t, k in pairs:
+            rows.setdefault(t, []).append(k)
+        for t, ks in rows.items():
+            row = z3.K(I_, z3.BoolVal(False))
+            for k in ks:
+                row = z3.Store(row, k, True)
+            a = z3.Store(a, t, row)
+        return a
+
+    def arr_has(pairs):
+        a = z3.K(I_, z3.BoolVal(False))
+        for k, _ in pairs:
+            a = z3.Store(a, k, True)
+        return a
+
+    def arr_val(pairs, default=0):
+        a = z3.K(I_, z3.IntVal(default))
+        for k, t in pairs:
+            a = z3.Store(a, k, t)
+        return a
+
+    eff0 = m.get("G_eff", (ms + 1, {}))
+    eff_pre = z3.K(I_, z3.IntVal(real(eff0[0])))
+    for i, v in eff0[1].items():
+        eff_pre = z3.Store(eff_pre, i, real(v))
+    saved = self.current_property if hasattr(self, "current_property") else None
+    self.current_property = None
+    ctx = _Ctx(self, [])
+    I = _Interp(self, ctx)
+    self.setup(I)
+    eff_fin = eff_pre
+    effv = dict((i, real(v)) for i, v in eff0[1].items())
+    for i, w in calls:
+        cur = effv.get(i, real(eff0[0]))
+        effv[i] = min(cur, w)
+        eff_fin = z3.Store(eff_fin, i, effv[i])
+    ctx.store[self.ev.loc("mem").key] = arr2(fe)
+    ctx.store[self.tg.loc("has").key] = arr_has(ft)
+    ctx.store[self.tg.loc("val").key] = arr_val(ft)
+    ctx.store[self.G.loc("eff").key] = eff_fin
+    ctx.store[self.G.loc("calls").key] = z3.IntVal(len(calls))
+    if calls:
+        ctx.store[self.G.loc("last_i").key] = z3.IntVal(calls[-1][0])
+        ctx.store[self.G.loc("last_t").key] = z3.IntVal(calls[-1][1])
+    ctx.hyps, ctx.obligs = [], []
+    try:
+        if exc != "-":
+            self.post_exc(I, ExcVal(exc, origin="native"))
+        else:
+            rv = out["ret"][0]
+            if rv == "-":
+                ret = models.VOID
+            elif type(self).__name__ in ("IsScheduled", "IsScheduledNow", "HasTag", "TagIsScheduledNow"):
+                ret = z3.BoolVal(rv == "1")
+            else:
+                ret = z3.IntVal(int(rv))
+            self.post(I, ret)
+    finally:
+        self.current_property = saved
+    subst = [(z3.Array("events_mem0", I_, z3.ArraySort(I_, B_)), arr2([(real(t), k) for t, k in events])),
+             (z3.Array("tags_has0", I_, B_), arr_has(tags)), (z3.Array("tags_val0", I_, I_), arr_val([(k, real(t)) for k, t in tags])),
+             (z3.Array("G_eff", I_, I_), eff_pre), (z3.Int("MAX_DT"), z3.IntVal(_MAXV))]
+    for nm in ("now", "G_T", "when", "default_time"):
+        if nm in m:
+            subst.append((z3.Int(nm), z3.IntVal(real(m[nm]) if m[nm] >= 0 else m[nm])))
+    for nm in ("node_index", "G_n", "tag", "tag_val", "delta"):
+        if nm in m:
+            subst.append((z3.Int(nm), z3.IntVal(m[nm])))
+    for nm in ("started", "graph_null", "state_null", "supports_wall", "tag_has", "on_wall_clock"):
+        if nm in m:
+            subst.append((z3.Bool(nm), z3.BoolVal(bool(m[nm]))))
+    failed, undecided = [], []
+    for o2 in ctx.obligs:
+        f = z3.substitute(o2.claim, *subst)
+        s = z3.Solver()
+        s.set("timeout", 10000)
+        s.add(z3.Not(f))
+        rr = s.check()
+        if rr == z3.sat:
+            failed.append(o2.name)
+        elif rr != z3.unsat:
+            undecided.append(o2.name)
+    rec = {"entry_state": lines, "native_output": p.stdout.splitlines(), "clauses_false_on_the_real_run": failed,
+           "clauses_undecided": undecided, "harness": "native/replay/ns_replay.cpp (real node_scheduler.h)"}
+    rec["status"] = "confirmed" if ob.name in failed else ("not-reproduced" if ob.name not in undecided else "undecided")
+    return rec
+
+
+NSKernel.native_replay = _ns_native_replay
